@@ -5,8 +5,9 @@
     no partner in S', added fields of S' have no partner in S.
     PARTIAL: proved for field codecs of the [rt_ok] fragment (every wire type
     occurs: varint, fixed 32/64, length-delimited incl. nested structs and
-    packed slices, counted slices); maps and the repeated forms by the
-    correspondence. *)
+    packed slices, counted slices and maps, and the protobuf repeated forms,
+    which are skipped / merged frame by frame); the JSON / BigQuery codecs and
+    scalar slices over pointer / null elements by the correspondence. *)
 From Plenc Require Import Base Varint Wire JsonAny Codec SizeProofs Registry CorrCore RoundTripBase RoundTrip Evolution.
 Open Scope N_scope.
 
@@ -35,11 +36,11 @@ Theorem C03_unknown_skipped_partial : forall fs' c idx fv cur more consumed fuel
   (length (enc c fv (field_tag c idx) ++ more) < fuel)%nat ->
   struct_loop (map (fun f => (f_index f, f_slot f, dec (f_codec f))) fs') fuel (enc c fv (field_tag c idx) ++ more) consumed cur
   = struct_loop (map (fun f => (f_index f, f_slot f, dec (f_codec f))) fs') fuel more (consumed + len (enc c fv (field_tag c idx))) cur.
-Proof. intros. apply unknown_field_step; assumption. Qed.
+Proof. intros. apply unknown_field_step_gen; assumption. Qed.
 Print Assumptions C03_unknown_skipped_partial.
 
 (** Skip returns exactly the payload length of a tagged field *)
-Theorem C03_skip_payload_partial : forall c, rt_ok c -> forall v idx more, wfv c v -> fits c v ->
+Theorem C03_skip_payload_partial : forall c, rt_ok c -> top_ok c -> forall v idx more, wfv c v -> fits c v ->
   exists payload, enc c v (field_tag c idx) = field_tag c idx ++ payload /\
                   skip (payload ++ more) (wire c) = Ok (len payload).
 Proof. exact skip_payload. Qed.
